@@ -101,12 +101,13 @@ def is_blank(b):
 # data lemmas: one worker process per stream configuration
 
 def data_config(cfg):
-    L, T, fault = cfg
-    out = {"cfg": cfg, "paths": 0, "queries": 0, "solver_s": 0.0, "viol": {}, "unknown": [], "chunks": 0, "maxchunks": 0, "steps": 0,
+    L, T, fault = cfg[:3]
+    prefix = cfg[3] if len(cfg) > 3 else None
+    out = {"cfg": cfg, "paths": 0, "queries": 0, "oblig": 0, "solver_s": 0.0, "viol": {}, "unknown": [], "chunks": 0, "maxchunks": 0, "steps": 0,
            "blank_candidates": 0, "sat_twins": 0}
     try:
         prog = _G["prog"]
-        reg = new_region(prog, base_opts(L, T, fault, e3_parse_outcomes="ok"))
+        reg = new_region(prog, base_opts(L, T, fault, e3_parse_outcomes="ok", e3_read_prefix=prefix))
         mains = reg.run_main()
         if len(mains) != 1:
             raise common.Inconclusive("Q2: %d main-thread paths (expected 1)" % len(mains))
@@ -136,6 +137,7 @@ def data_config(cfg):
             m = sol.model() if r == z3.sat else None
             sol.pop()
             out["queries"] += 1
+            out["oblig"] += 1
             out["solver_s"] += time.time() - t0
             return ("sat" if r == z3.sat else "unsat" if r == z3.unsat else "unknown"), m
 
@@ -215,7 +217,7 @@ def data_config(cfg):
                     if not c_:
                         continue
                     out["blank_candidates"] += 1
-                    r, m = ask(pc, wfc + [z3.Or([b == LB for b in stream])] + [is_blank(b) for b in c_])
+                    r, m = ask(pc, wfc + [is_blank(b) for b in c_])
                     if r == "unknown":
                         out["unknown"].append("blank query")
                     elif r == "sat":
@@ -342,11 +344,23 @@ def replay_data(ctx, w):
 
 def run_data(ctx, prog, Lmax):
     cfgs = []
+
+    def add(L, T, fault):
+        # big configurations are split over worker processes by the sizes of the first two underlying reads
+        # (the union of the sub-runs is exactly the configuration: every execution has some first two read sizes)
+        if T < 7:
+            cfgs.append((L, T, fault))
+            return
+        for n1 in range(1, min(4, T) + 1):
+            for n2 in range(0, T - n1 + 1):
+                if n2 == 0 and n1 != T:
+                    continue
+                cfgs.append((L, T, fault, (n1, n2)))
     for L in range(0, Lmax + 1):
-        cfgs.append((L, L, False))
+        add(L, L, False)
         for T in range(0, L + 1):
-            cfgs.append((L, T, True))
-    cfgs.sort(key=lambda c: -(3 ** c[1]))
+            add(L, T, True)
+    cfgs.sort(key=lambda c: -(3 ** c[1]) / (12 if len(c) > 3 else 1))
     _G["prog"] = prog
     with mp.get_context("fork").Pool(min(16, len(cfgs))) as pool:
         results = pool.map(data_config, cfgs, chunksize=1)
@@ -357,7 +371,7 @@ def run_data(ctx, prog, Lmax):
     ctx.states += paths
     ctx.transitions += sum(r["steps"] for r in results)
     ctx.queries += q
-    ctx.nontrivial += q
+    ctx.nontrivial += sum(r["oblig"] for r in results)
     ctx.solver_s += ss
     for r in results:
         for fn, n in r.get("funcs", {}).items():
@@ -538,6 +552,7 @@ def order_config(cfg):
                     a[2], a[3], a[0], a[1], sc.traces[a[0]].accpos.get((a[1], a[2], a[3], a[4])), b[2], b[0], b[1], sc.traces[b[0]].accpos.get((b[1], b[2], b[3], b[4]))), "cfg": cfg}
             out["queries"] += enc.queries
             out["solver_s"] += enc.solver_s
+        out["engine_queries"] = eng.queries
     except common.Inconclusive as e:
         out["error"] = str(e)
     except Exception:
@@ -679,7 +694,7 @@ def run_order(ctx, prog, Cmax):
     feas = sum(r["feasible"] for r in results)
     ctx.states += nsc
     ctx.transitions += 2 * nev
-    ctx.queries += q
+    ctx.queries += q + sum(r.get("engine_queries", 0) for r in results)
     ctx.nontrivial += q
     ctx.solver_s += ss
     for r in results:
@@ -764,6 +779,8 @@ def run(ctx):
                "passes one underlying read through (n and err together), buffered data first; ReadBytes fills with reads of any size; (0,nil) reads excluded")
     ctx.assume("parseMessage(chunk, true) is uninterpreted (reads the chunk; nil or error); that a non-blank, LF-terminated chunk of a well-formed stream parses is C08's claim")
     ctx.assume("the consumer of res eventually receives every blocking send; a value received from reuse is referenced by nobody else; reuse is open or nil (DESIGN §3.6)")
+    ctx.assume("stream bytes are ASCII (< 0x80); bytes.TrimSpace in the reader goroutine is a contract: only the length of its result is modelled "
+               "(0 iff all bytes are ASCII white space); any other use of the result stops the engine (inconclusive)")
     ctx.assume("well-formed NDJSON is modelled over the alphabet {LF, space, '[', ']'} with documents \"[]\" (one per line); other obligations hold for arbitrary bytes")
     scale = {"tmpSize": "4"}
     ctx.scaled.update(scale)
